@@ -17,6 +17,7 @@ type T struct {
 	c    chan int
 	m    map[string]int
 	name string
+	closed bool
 }
 
 type Option func(*T)
@@ -189,4 +190,44 @@ func (t *T) SyncUses() {
 	t.wg.Wait()      // Use
 	delete(t.m, "k") // Wr []
 	t.once = sync.Once{} // Wr []
+}
+
+// Gate: the launch-gate pattern - the Go is under mu and behind the latch test.
+func (t *T) Gate(f func()) bool {
+	t.mu.Lock()
+	defer t.mu.Unlock()
+	if t.closed { // Rd [mu Ex]
+		return false
+	}
+	t.wg.Go(f) // Use [mu Ex] conds [!$.closed]; wg#addwait Wr
+	return true
+}
+
+// CloseAndWait: the Wait runs in a goroutine spawned after the latch was set.
+func (t *T) CloseAndWait() {
+	t.mu.Lock()
+	t.closed = true // Wr [mu Ex] note =true
+	t.mu.Unlock()
+	go func() {
+		t.wg.Wait() // Use conds [set:$.closed]; wg#addwait Rd
+	}()
+}
+
+// StaleCheck: the test happens before the lock is taken: the condition does not survive the Lock.
+func (t *T) StaleCheck(f func()) {
+	if t.closed { // Rd []
+		return
+	}
+	t.mu.Lock()
+	t.wg.Go(f) // conds []
+	t.mu.Unlock()
+}
+
+// Reopen: assigning false removes the history fact.
+func (t *T) Reopen() {
+	t.mu.Lock()
+	t.closed = true  // note =true
+	t.closed = false // note =false
+	t.mu.Unlock()
+	t.wg.Wait() // conds []
 }
